@@ -257,4 +257,478 @@ theorem ginv_result {c : Cfg} {g : GSt} {t : Tid} {r : GRet} {s' : St} (h : GInv
     · subst ht; simp [upd] at h
     · simp only [upd, ht, if_false] at h; exact hmem t2 h
 
+theorem hent_self (t : Tid) (old new : Tid → Option GRet) (pend : Pend) : hent t old new pend t = none := by
+  simp [hent]
+
+theorem hent_of_old_some {t : Tid} {old new : Tid → Option GRet} {pend : Pend} {t2 : Tid} (h : old t2 ≠ none) :
+    hent t old new pend t2 = none := by
+  unfold hent; split
+  · rfl
+  · split
+    next h1 _ _ => exact absurd h1 h
+    · rfl
+
+theorem hent_of_new_none {t : Tid} {old new : Tid → Option GRet} {pend : Pend} {t2 : Tid} (h : new t2 = none) :
+    hent t old new pend t2 = none := by
+  unfold hent; split
+  · rfl
+  · split
+    next _ h2 _ => rw [h] at h2; simp at h2
+    · rfl
+
+theorem hent_loser {t : Tid} {old new : Tid → Option GRet} {pend : Pend} {t2 : Tid} {r : GRet} {op : GOp} {k : Nat}
+    (hne : t2 ≠ t) (h1 : old t2 = none) (h2 : new t2 = some r) (h3 : pend t2 = some (op, k)) :
+    hent t old new pend t2 = some ⟨t2, op, r, k, none⟩ := by
+  simp [hent, hne, h1, h2, h3]
+
+theorem openOf_helped {act : List Tid} (hnd : act.Nodup) (t : Tid) (old new : Tid → Option GRet) (pend : Pend) (t2 : Tid) :
+    openOf t2 (helped act t old new pend) = if t2 ∈ act then (hent t old new pend t2).toList else [] :=
+  openOf_filterMap hnd (fun t' e h => ⟨(hent_spec h).1, (hent_spec h).2.1⟩) t2
+
+theorem pairwise_res_none (l : List LE) (h : ∀ b ∈ l, b.res = none) :
+    l.Pairwise (fun a b => ∀ r, b.res = some r → a.inv ≤ r) := by
+  induction l with
+  | nil => exact List.Pairwise.nil
+  | cons a l ih =>
+    refine List.Pairwise.cons ?_ (ih (fun b hb => h b (List.mem_cons_of_mem _ hb)))
+    intro b hb r hr
+    rw [h b (List.mem_cons_of_mem _ hb)] at hr; simp at hr
+
+theorem openOf_nil_of_tid {t2 : Tid} {e : LE} (h : e.tid ≠ t2) : openOf t2 [e] = [] := by
+  simp [openOf, h]
+
+set_option maxHeartbeats 1000000 in
+theorem ginv_step {c : Cfg} (hc : 0 < c.maxH) (hmt : c.markTest = true) {g : GSt} {t : Tid} {ev : Ev} {s' : St}
+    (h : GInv c g) (hs : step c g.s t = some (s', ev)) : GInv c (gnext g t s' (.ev ev)) := by
+  obtain ⟨L, hl, hg⟩ := h
+  obtain ⟨L', hl', he⟩ := sinvl_step hc hmt hl hs
+  refine ⟨L', hl', ?_⟩
+  obtain ⟨hspec, hinvlt, hrt, hcomp, hpendlt, hpre, hpreopen, hpost, hidle, hnd, hmem⟩ := hg
+  obtain ⟨hframe, hkey, hval, hlp, hnolp, hkeep, hpkeep, hop, hbusy, hmarks⟩ := he
+  obtain ⟨m, hm1, hm2⟩ := hspec
+  -- the other threads
+  have hoth : ∀ t2, t2 ≠ t → lpOf s' t2 = lpOf g.s t2 ∨
+      (lpOf g.s t2 = none ∧ lpOf s' t2 = some [0] ∧ ∃ kk, opOf g.s.key g.s.val (g.s.pc t2) = some ⟨"erase", [kk]⟩ ∧
+        ∀ w, ¬ Has (mk0 s'.mark) s'.key s'.val L' kk w) := by
+    intro t2 ht
+    simp only [lpOf, hframe t2 ht, hkey, hval]
+    rcases hmarks with hmk | ⟨d, hd, hmk, -, -, habs⟩
+    · left; rw [hmk]
+    · rw [hmk]
+      rcases lp_other (m := mem! g.s) (hl.thr t2) (mk := mk0 g.s.mark) (d := d) hd with e | ⟨e1, e2, e3⟩
+      · exact Or.inl e
+      · exact Or.inr ⟨e1, e2, g.s.key d, e3, by rw [hkey, hval] at habs; rw [← hmk]; exact habs⟩
+  have hsame : ¬ (lpOf g.s t = none ∧ ∃ r, lpOf s' t = some r) → ∀ t2, t2 ≠ t → lpOf s' t2 = lpOf g.s t2 := by
+    intro hno t2 ht
+    simp only [lpOf, hframe t2 ht, hkey, hval]
+    rcases hmarks with hmk | ⟨d, -, -, h1, h2, -⟩
+    · rw [hmk]
+    · exfalso; apply hno
+      refine ⟨h1, ?_⟩
+      cases hh : lpRet (mk0 s'.mark) s'.key s'.val (s'.pc t) with
+      | none => rw [hh] at h2; simp at h2
+      | some r => exact ⟨r, hh⟩
+  have hpre' : ∀ op2, opOf s'.key s'.val (s'.pc t) = some op2 → ∃ k, g.pend t = some (op2, k) := by
+    intro op2
+    cases hp : postRet s'.val (s'.pc t) with
+    | some r => rw [opOf_none_of_post hp]; simp
+    | none => rw [hop hp]; exact hpre t op2
+  by_cases hLP : lpOf g.s t = none ∧ ∃ r, lpOf s' t = some r
+  · -- linearization point (tentative or definitive), possibly with helped entries
+    obtain ⟨h1, r, h2⟩ := hLP
+    obtain ⟨op, hopo, hnext⟩ := hlp h1 r h2
+    obtain ⟨k, hk⟩ := hpre t op hopo
+    obtain ⟨m', hm1', hm2'⟩ := hnext m hm2
+    have hlog : (gnext g t s' (.ev ev)).log =
+        (g.log ++ [⟨t, op, r, k, none⟩]) ++ helped g.act t (lpOf g.s) (lpOf s') g.pend := by
+      simp only [gnext, h1, h2, hk]
+    have hH : ∀ e ∈ helped g.act t (lpOf g.s) (lpOf s') g.pend,
+        e.res = none ∧ e.tid ≠ t ∧ g.pend e.tid = some (e.op, e.inv) ∧ Spec.map.next m' e.op e.ret = some m' := by
+      intro e hem
+      obtain ⟨t2, -, hf⟩ := List.mem_filterMap.mp hem
+      obtain ⟨e1, e2, e3, e4, e5, e6⟩ := hent_spec hf
+      subst e1
+      refine ⟨e2, e3, e6, ?_⟩
+      rcases hoth e.tid e3 with hh | ⟨-, hh2, kk, hh3, hh4⟩
+      · rw [hh, e4] at e5; simp at e5
+      · obtain ⟨k', hk'⟩ := hpre e.tid _ hh3
+        rw [e6] at hk'; simp only [Option.some.injEq, Prod.mk.injEq] at hk'
+        rw [e5] at hh2; simp only [Option.some.injEq] at hh2
+        rw [hk'.1, hh2]
+        obtain ⟨m'', hn1, -⟩ := LPok.ro_none (H := Has (mk0 s'.mark) s'.key s'.val L') (H' := Has (mk0 s'.mark) s'.key s'.val L')
+          (op := ⟨"erase", [kk]⟩) hh4 (fun _ _ => Iff.rfl) (Or.inl rfl) m' hm2'
+        have := Michael.map_ro hn1 (by simp [isRO])
+        rw [this] at hn1; exact hn1
+    constructor
+    · refine ⟨m', ?_, by simpa only [gnext] using hm2'⟩
+      rw [hlog, Michael.runSpec_append, Michael.runSpec_append, hm1]
+      simp only [Option.bind_some, runSpec, hm1']
+      exact runSpec_ro_list m' _ (fun e he => (hH e he).2.2.2)
+    · rw [hlog]; intro e he
+      simp only [gnext]
+      rcases List.mem_append.mp he with h | h
+      · rcases List.mem_append.mp h with h | h
+        · have := hinvlt e h; omega
+        · simp at h; subst h; have := hpendlt t op k hk; simp only; omega
+      · have := hpendlt _ _ _ (hH e h).2.2.1; omega
+    · rw [hlog, List.pairwise_append]
+      refine ⟨?_, pairwise_res_none _ (fun b hb => (hH b hb).1), ?_⟩
+      · rw [List.pairwise_append]
+        refine ⟨hrt, by simp, ?_⟩
+        intro a _ b hb r' hr'
+        simp at hb; subst hb; simp at hr'
+      · intro a _ b hb r' hr'
+        rw [(hH b hb).1] at hr'; simp at hr'
+    · rw [hlog]
+      simp only [completed, List.filterMap_append, gnext] at hcomp ⊢
+      have e1 : List.filterMap LE.done? [(⟨t, op, r, k, none⟩ : LE)] = [] := by simp [LE.done?]
+      have e2 := completed_open_nil _ (fun b hb => (hH b hb).1)
+      simp only [completed] at e2
+      rw [e1, e2, List.append_nil, List.append_nil]; exact hcomp
+    · intro t2 op2 k2 h
+      simp only [gnext] at h ⊢
+      have := hpendlt t2 op2 k2 h; omega
+    · intro t2 op2
+      simp only [gnext]
+      by_cases ht : t2 = t
+      · subst ht; exact hpre' op2
+      · rw [hframe t2 ht, hkey, hval]; exact hpre t2 op2
+    · intro t2
+      rw [hlog]; simp only [gnext]
+      by_cases ht : t2 = t
+      · subst ht; rw [h2]; simp
+      · intro hn
+        have hold : lpOf g.s t2 = none := by
+          rcases hoth t2 ht with hh | ⟨-, hh, -⟩
+          · rw [← hh]; exact hn
+          · rw [hn] at hh; simp at hh
+        rw [Michael.openOf_append, Michael.openOf_append, hpreopen t2 hold, openOf_helped hnd,
+          hent_of_new_none hn, openOf_nil_of_tid (by exact fun e => ht e.symm)]
+        simp
+    · intro t2 r2
+      rw [hlog]; simp only [gnext]
+      by_cases ht : t2 = t
+      · subst ht; rw [h2]; intro h; simp at h; subst h
+        refine ⟨op, k, hk, ?_⟩
+        rw [Michael.openOf_append, Michael.openOf_append, hpreopen t2 h1, openOf_helped hnd, hent_self]
+        simp [openOf]
+      · intro hn
+        have hne : ¬ ((⟨t, op, r, k, none⟩ : LE).tid = t2) := fun e => ht e.symm
+        rw [Michael.openOf_append, Michael.openOf_append, openOf_helped hnd, openOf_nil_of_tid hne]
+        rcases hoth t2 ht with hh | ⟨hh1, hh2, kk, hh3, -⟩
+        · rw [hh] at hn
+          obtain ⟨op2, k2, h3, h4⟩ := hpost t2 r2 hn
+          refine ⟨op2, k2, h3, ?_⟩
+          rw [h4, hent_of_old_some (by rw [hn]; simp)]
+          simp
+        · obtain ⟨k2, hk2⟩ := hpre t2 _ hh3
+          have hin : t2 ∈ g.act := hmem t2 (by rw [hk2]; simp)
+          refine ⟨_, k2, hk2, ?_⟩
+          rw [hpreopen t2 hh1, hent_loser ht hh1 hn hk2]
+          simp [hin]
+    · intro t2
+      simp only [gnext]
+      by_cases ht : t2 = t
+      · subst ht; intro h; exact absurd h hbusy.2
+      · rw [hframe t2 ht]; exact hidle t2
+    · exact hnd
+    · exact hmem
+  · have hHnil : helped g.act t (lpOf g.s) (lpOf s') g.pend = [] := helped_nil (hsame hLP)
+    by_cases hAB : (∃ r, lpOf g.s t = some r) ∧ lpOf s' t = none
+    · -- a tentative linearization is withdrawn
+      obtain ⟨⟨r, h1⟩, h2⟩ := hAB
+      have hro : ∃ op, opOf g.s.key g.s.val (g.s.pc t) = some op ∧ isRO op r = true := by
+        rcases hkeep r h1 with h | h
+        · rw [show lpRet (mk0 s'.mark) s'.key s'.val (s'.pc t) = none from h2] at h; simp at h
+        · exact h.1
+      have hhas := hnolp (Or.inr h2)
+      obtain ⟨op, k, hk, hopen⟩ := hpost t r h1
+      have hlog : (gnext g t s' (.ev ev)).log = dropOpen t g.log := by
+        simp only [gnext, h1, h2, hHnil, List.append_nil]
+      constructor
+      · refine ⟨m, ?_, fun k v => (hm2 k v).trans (by simpa only [gnext] using (hhas k v).symm)⟩
+        rw [hlog]
+        apply Michael.runSpec_dropOpen _ _ _ _ _ hm1
+        intro e he; rw [hopen] at he; simp at he; rw [he]
+        obtain ⟨op', ho1, ho2⟩ := hro
+        obtain ⟨k', hk'⟩ := hpre t op' ho1
+        rw [hk] at hk'; simp at hk'
+        simp only; rw [hk'.1]; exact ho2
+      · rw [hlog]; intro e he; have := hinvlt e (Michael.mem_dropOpen he); simp only [gnext]; omega
+      · rw [hlog]; exact hrt.sublist (Michael.dropOpen_sublist t g.log)
+      · rw [hlog, Michael.completed_dropOpen]; exact hcomp
+      · intro t2 op2 k2 h
+        simp only [gnext] at h ⊢
+        have := hpendlt t2 op2 k2 h; omega
+      · intro t2 op2
+        simp only [gnext]
+        by_cases ht : t2 = t
+        · subst ht; exact hpre' op2
+        · rw [hframe t2 ht, hkey, hval]; exact hpre t2 op2
+      · intro t2
+        rw [hlog]; simp only [gnext]
+        by_cases ht : t2 = t
+        · subst ht; intro _; exact Michael.openOf_dropOpen_same _ _
+        · rw [hsame hLP t2 ht, Michael.openOf_dropOpen_other _ _ ht]; exact hpreopen t2
+      · intro t2 r2
+        rw [hlog]; simp only [gnext]
+        by_cases ht : t2 = t
+        · subst ht; rw [h2]; intro h; simp at h
+        · rw [hsame hLP t2 ht, Michael.openOf_dropOpen_other _ _ ht]; exact hpost t2 r2
+      · intro t2
+        simp only [gnext]
+        by_cases ht : t2 = t
+        · subst ht; intro h; exact absurd h hbusy.2
+        · rw [hframe t2 ht]; exact hidle t2
+      · exact hnd
+      · exact hmem
+    · -- neither
+      have hEq : lpOf s' t = lpOf g.s t := by
+        cases h1 : lpOf g.s t with
+        | none =>
+          cases h2 : lpOf s' t with
+          | none => rfl
+          | some r => exact absurd ⟨h1, r, h2⟩ hLP
+        | some r =>
+          rcases hkeep r h1 with h | h
+          · exact h
+          · exact absurd ⟨⟨r, h1⟩, h.2⟩ hAB
+      have hc' : lpRet (mk0 g.s.mark) g.s.key g.s.val (g.s.pc t) ≠ none ∨
+          lpRet (mk0 s'.mark) s'.key s'.val (s'.pc t) = none := by
+        cases h1 : lpOf g.s t with
+        | none => right; have := hEq; rw [h1] at this; exact this
+        | some r => left; intro e; rw [show lpRet (mk0 g.s.mark) g.s.key g.s.val (g.s.pc t) = some r from h1] at e; simp at e
+      have hhas := hnolp hc'
+      have hlog : (gnext g t s' (.ev ev)).log = g.log := by
+        simp only [gnext, hHnil, List.append_nil]
+        split
+        next h1 h2 _ => exact absurd ⟨h1, _, h2⟩ hLP
+        next h1 h2 => exact absurd ⟨⟨_, h1⟩, h2⟩ hAB
+        next => rfl
+      constructor
+      · refine ⟨m, by rw [hlog]; exact hm1, fun k v => (hm2 k v).trans (by simpa only [gnext] using (hhas k v).symm)⟩
+      · rw [hlog]; intro e he; have := hinvlt e he; simp only [gnext]; omega
+      · rw [hlog]; exact hrt
+      · rw [hlog]; exact hcomp
+      · intro t2 op2 k2 h
+        simp only [gnext] at h ⊢
+        have := hpendlt t2 op2 k2 h; omega
+      · intro t2 op2
+        simp only [gnext]
+        by_cases ht : t2 = t
+        · subst ht; exact hpre' op2
+        · rw [hframe t2 ht, hkey, hval]; exact hpre t2 op2
+      · intro t2
+        rw [hlog]; simp only [gnext]
+        by_cases ht : t2 = t
+        · subst ht; rw [hEq]; exact hpreopen t2
+        · rw [hsame hLP t2 ht]; exact hpreopen t2
+      · intro t2 r2
+        rw [hlog]; simp only [gnext]
+        by_cases ht : t2 = t
+        · subst ht; rw [hEq]; exact hpost t2 r2
+        · rw [hsame hLP t2 ht]; exact hpost t2 r2
+      · intro t2
+        simp only [gnext]
+        by_cases ht : t2 = t
+        · subst ht; intro h; exact absurd h hbusy.2
+        · rw [hframe t2 ht]; exact hidle t2
+      · exact hnd
+      · exact hmem
+
+theorem gnext_s (g : GSt) (t : Tid) (s' : St) (o : Obs) : (gnext g t s' o).s = s' := by
+  cases o <;> simp only [gnext]
+  split <;> rfl
+
+theorem gnext_clock (g : GSt) (t : Tid) (s' : St) (o : Obs) : (gnext g t s' o).clock = g.clock + 1 := by
+  cases o <;> simp only [gnext]
+  split <;> rfl
+
+theorem gnext_hist (g : GSt) (t : Tid) (s' : St) (o : Obs) (os : List (Tid × Obs)) :
+    (gnext g t s' o).hist ++ histAux (g.clock + 1) (gnext g t s' o).pend os
+      = g.hist ++ histAux g.clock g.pend ((t, o) :: os) := by
+  cases o with
+  | call op => simp only [gnext, histAux]
+  | ev e => simp only [gnext, histAux]
+  | ret r =>
+    simp only [gnext, histAux]
+    cases hp : g.pend t with
+    | none => simp only
+    | some p => obtain ⟨op, k⟩ := p; simp only [List.append_assoc, List.singleton_append]
+
+theorem gnext_pend (g : GSt) (t : Tid) (s' : St) (o : Obs) (os : List (Tid × Obs)) :
+    pendAux (g.clock + 1) (gnext g t s' o).pend os = pendAux g.clock g.pend ((t, o) :: os) := by
+  cases o with
+  | call op => simp only [gnext, pendAux]
+  | ev e => simp only [gnext, pendAux]
+  | ret r =>
+    simp only [gnext, pendAux]
+    cases hp : g.pend t with
+    | none => simp only
+    | some p => obtain ⟨op, k⟩ := p; simp only
+
+theorem ginv_apply {c : Cfg} (hc : 0 < c.maxH) (hmt : c.markTest = true) {g : GSt} {t : Tid} {a : Act} {s' : St} {o : Obs}
+    (h : GInv c g) (hap : (model c).apply g.s t a = some (s', o)) : GInv c (gnext g t s' o) := by
+  cases a with
+  | invoke op =>
+    simp only [Model.apply, model, Option.map_eq_some_iff] at hap
+    obtain ⟨s1, hs1, heq⟩ := hap
+    simp only [Prod.mk.injEq] at heq
+    obtain ⟨rfl, rfl⟩ := heq
+    exact ginv_invoke h hs1
+  | step =>
+    simp only [Model.apply, model, Option.map_eq_some_iff] at hap
+    obtain ⟨⟨s1, e⟩, hs1, heq⟩ := hap
+    simp only [Prod.mk.injEq] at heq
+    obtain ⟨rfl, rfl⟩ := heq
+    exact ginv_step hc hmt h hs1
+  | ret =>
+    simp only [Model.apply, model, Option.map_eq_some_iff] at hap
+    obtain ⟨⟨s1, r⟩, hs1, heq⟩ := hap
+    simp only [Prod.mk.injEq] at heq
+    obtain ⟨rfl, rfl⟩ := heq
+    exact ginv_result h hs1
+
+/-- Every run of the model lifts to an instrumented run. -/
+theorem run_ghost {c : Cfg} (hc : 0 < c.maxH) (hmt : c.markTest = true) :
+    ∀ (sched : List (Tid × Act)) (g : GSt) (s' : St) (os : List (Tid × Obs)),
+    GInv c g → (model c).run g.s sched = some (s', os) →
+    ∃ g', GInv c g' ∧ g'.s = s' ∧ g'.hist = g.hist ++ histAux g.clock g.pend os ∧
+      g'.pend = pendAux g.clock g.pend os ∧ g'.clock = g.clock + os.length := by
+  intro sched
+  induction sched with
+  | nil =>
+    intro g s' os hg hr
+    simp [Model.run] at hr
+    obtain ⟨rfl, rfl⟩ := hr
+    exact ⟨g, hg, rfl, by simp [histAux], by simp [pendAux], by simp⟩
+  | cons x rest ih =>
+    intro g s' os hg hr
+    obtain ⟨t, a⟩ := x
+    simp only [Model.run] at hr
+    cases hap : (model c).apply g.s t a with
+    | none => simp [hap] at hr
+    | some p =>
+      obtain ⟨s1, o⟩ := p
+      simp only [hap] at hr
+      cases hrr : (model c).run s1 rest with
+      | none => simp [hrr] at hr
+      | some q =>
+        obtain ⟨s2, os2⟩ := q
+        simp only [hrr, Option.some.injEq, Prod.mk.injEq] at hr
+        obtain ⟨rfl, rfl⟩ := hr
+        have hg1 := ginv_apply hc hmt hg hap
+        have hrr' : (model c).run (gnext g t s1 o).s rest = some (s2, os2) := by rw [gnext_s]; exact hrr
+        obtain ⟨g', hg', hs', hh, hp, hcl⟩ := ih (gnext g t s1 o) s2 os2 hg1 hrr'
+        refine ⟨g', hg', hs', ?_, ?_, ?_⟩
+        · rw [hh, gnext_clock, gnext_hist]
+        · rw [hp, gnext_clock, gnext_pend]
+        · rw [hcl, gnext_clock]; simp; omega
+
+/-- The linearization extracted from the ghost log. -/
+theorem ginv_linearizable {c : Cfg} {g : GSt} (h : GInv c g) :
+    Linearizable Spec.map (g.hist ++ (openAll (finalLog g.log)).map (LE.fin g.clock)) ∧
+    (∀ e ∈ (openAll (finalLog g.log)).map (LE.fin g.clock),
+        g.pend e.tid = some (e.op, e.inv) ∧ e.res = g.clock ∧ postRet g.s.val (g.s.pc e.tid) = some e.ret) ∧
+    ((openAll (finalLog g.log)).map (LE.fin g.clock)).Pairwise (fun a b => a.tid ≠ b.tid) := by
+  obtain ⟨L, hl, hg⟩ := h
+  obtain ⟨hspec, hinvlt, hrt, hcomp, hpendlt, hpre, hpreopen, hpost, hidle, -, -⟩ := hg
+  obtain ⟨m, hm1, -⟩ := hspec
+  have hsub : (finalLog g.log).Sublist g.log := List.filter_sublist
+  have hcompl : completed (finalLog g.log) = completed g.log :=
+    Michael.completed_filter_open keepLE g.log (fun e _ hk => (Michael.keepLE_false hk).1)
+  refine ⟨⟨(finalLog g.log).map (LE.fin g.clock), ?_, ?_, ?_⟩, ?_, ?_⟩
+  · refine (Michael.completed_openAll_perm g.clock (finalLog g.log)).symm.trans (List.Perm.append_right _ ?_)
+    rw [hcompl]; exact hcomp
+  · unfold RespectsRT
+    rw [List.pairwise_map]
+    refine List.Pairwise.imp_of_mem ?_ (hrt.sublist hsub)
+    intro a b ha _ hab
+    simp only [LE.fin]
+    cases hr : b.res with
+    | none => have := hinvlt a (hsub.subset ha); simp; omega
+    | some r => have := hab r hr; simp; omega
+  · exact Michael.legal_of_runSpec g.clock (finalLog g.log) [] _
+      (Michael.runSpec_filter keepLE g.log [] _ (fun e _ hk => (Michael.keepLE_false hk).2) hm1)
+  · intro e' he'
+    obtain ⟨e, he, rfl⟩ := List.mem_map.mp he'
+    have he2 := List.mem_filter.mp he
+    have he3 := List.mem_filter.mp he2.1
+    have hr : e.res = none := by cases h : e.res <;> simp_all
+    have hr0 : isRO e.op e.ret ≠ true := by
+      intro h0
+      have := he3.2
+      simp [keepLE, hr, h0] at this
+    have hmem : e ∈ openOf e.tid g.log := by
+      simp only [openOf, List.mem_filter]; exact ⟨he3.1, by simp [hr]⟩
+    cases hp : lpOf g.s e.tid with
+    | none => rw [hpreopen e.tid hp] at hmem; simp at hmem
+    | some r =>
+      obtain ⟨op, k, h1, h2⟩ := hpost e.tid r hp
+      rw [h2] at hmem
+      simp at hmem
+      have e1 : e.op = op := by rw [hmem]
+      have e2 : e.inv = k := by rw [hmem]
+      have e3 : e.ret = r := by rw [hmem]
+      have hpr : postRet g.s.val (g.s.pc e.tid) = some r := by
+        cases hq : postRet g.s.val (g.s.pc e.tid) with
+        | some r' =>
+          have := lpRet_of_post (mk := mk0 g.s.mark) (key := g.s.key) hq
+          rw [show lpRet (mk0 g.s.mark) g.s.key g.s.val (g.s.pc e.tid) = some r from hp] at this
+          simp at this; rw [this]
+        | none =>
+          obtain ⟨op', ho1, ho2⟩ := ro_of_tentative (mk := mk0 g.s.mark) (key := g.s.key) hp hq
+          obtain ⟨k', hk'⟩ := hpre e.tid op' ho1
+          rw [h1] at hk'; simp at hk'
+          rw [e1, e3, hk'.1] at hr0
+          exact absurd ho2 hr0
+      simp [LE.fin, hr, h1, e1, e2, e3, hpr]
+  · rw [List.pairwise_map]
+    refine (Michael.openAll_pairwise g.log ?_).sublist (Michael.openAll_finalLog_sublist g.log)
+    intro t
+    cases hp : lpOf g.s t with
+    | none => rw [hpreopen t hp]; simp
+    | some r => obtain ⟨op, k, -, h2⟩ := hpost t r hp; rw [h2]; simp
+
+/-! ### Main theorems -/
+
+/-- **Linearizability of the lock-free skip list** (repaired fast path; Herlihy–Wing with completion of pending
+    operations), in the form of `Michael.michael_linearizable`. -/
+theorem skiplist_linearizable {c : Cfg} (hc : 0 < c.maxH) (hmt : c.markTest = true) (sched : List (Tid × Act)) (s : St)
+    (os : List (Tid × Obs)) (h : (model c).run (init c) sched = some (s, os)) :
+    ∃ extra : List (OpRec GOp GRet),
+      (∀ e ∈ extra, Michael.pendingOf os e.tid = some (e.op, e.inv) ∧ e.res = os.length ∧
+          postRet s.val (s.pc e.tid) = some e.ret) ∧
+      extra.Pairwise (fun a b => a.tid ≠ b.tid) ∧
+      Linearizable Spec.map (Michael.historyOf os ++ extra) := by
+  obtain ⟨g, hg, rfl, h2, h3, h4⟩ := run_ghost hc hmt sched (ginit c) s os (ginv_init c) h
+  obtain ⟨hlin, hex, hpw⟩ := ginv_linearizable hg
+  have h2' : g.hist = Michael.historyOf os := by simpa [ginit, Michael.historyOf] using h2
+  have h3' : g.pend = Michael.pendingOf os := by simpa [ginit, Michael.pendingOf] using h3
+  have h4' : g.clock = os.length := by simpa [ginit] using h4
+  rw [h2', h4'] at hlin; rw [h3', h4'] at hex; rw [h4'] at hpw
+  exact ⟨_, hex, hpw, hlin⟩
+
+theorem skiplist_linearizable_no_effect_pending {c : Cfg} (hc : 0 < c.maxH) (hmt : c.markTest = true)
+    (sched : List (Tid × Act)) (s : St) (os : List (Tid × Obs)) (h : (model c).run (init c) sched = some (s, os))
+    (hq : ∀ t, postRet s.val (s.pc t) = none) : Linearizable Spec.map (Michael.historyOf os) := by
+  obtain ⟨extra, hex, -, hlin⟩ := skiplist_linearizable hc hmt sched s os h
+  have : extra = [] := by
+    apply List.eq_nil_iff_forall_not_mem.mpr
+    intro e he
+    have := (hex e he).2.2
+    rw [hq] at this; simp at this
+  simpa [this] using hlin
+
+theorem skiplist_linearizable_complete_runs {c : Cfg} (hc : 0 < c.maxH) (hmt : c.markTest = true)
+    (sched : List (Tid × Act)) (s : St) (os : List (Tid × Obs)) (h : (model c).run (init c) sched = some (s, os))
+    (hq : ∀ t, s.pc t = .idle) : Linearizable Spec.map (Michael.historyOf os) :=
+  skiplist_linearizable_no_effect_pending hc hmt sched s os h (fun t => by simp [hq t, postRet])
+
+/-- The invariant holds in every state of every run. -/
+theorem sinv_run {c : Cfg} (hc : 0 < c.maxH) (hmt : c.markTest = true) (sched : List (Tid × Act)) (s : St)
+    (os : List (Tid × Obs)) (h : (model c).run (init c) sched = some (s, os)) : ∃ L, SInvL c s L := by
+  obtain ⟨g, ⟨L, hl, -⟩, rfl, -⟩ := run_ghost hc hmt sched (ginit c) s os (ginv_init c) h
+  exact ⟨L, hl⟩
+
 end CdsVerif.Algo.SkipList
